@@ -20,7 +20,8 @@
 (***************************************************************************)
 EXTENDS J2O_Tensor, J2O_VocabFacts
 
-\* J2O_VocabFacts defines: LayoutSets (set-name :> set of op names), ClassOf (op name :> class)
+\* J2O_VocabFacts defines: LayoutSets (set-name :> set of op names), ClassOf (op name :> class),
+\*                        IntPreserving (set of op names), IntClassOf (op name :> class)
 
 Sh == <<2, 2, 3>>
 Perms == {<<0, 2, 1>>, <<1, 2, 0>>, <<2, 0, 1>>, <<1, 0, 2>>, <<2, 1, 0>>}
@@ -49,8 +50,28 @@ Evaluate == /\ verdict = "pending"
 Spec == Init /\ [][Evaluate]_vars
 
 VocabSound == verdict # "differs"
+
+---------------------------------------------------------------------------
+(* Second vocabulary (C17): _INTEGER_VALUE_PRESERVING_OPS.  The static range prover walks from a value
+   back to its producer's FIRST input as long as the producer is in this set, so every member must only
+   select / rearrange / repeat elements of its first input:  Elements(out) \subseteq Elements(in0).
+   Classes: selects_first (Reshape, Transpose, Squeeze, Unsqueeze, Flatten, Identity, Expand, Gather,
+   Slice, Tile), joins (Concat: elements of ALL operands), pointwise_nary (Add, Max, ...: new values). *)
+Elems(t) == {t.f[ix] : ix \in IdxSet(t.sh)}
+A1 == InputT(0, <<3>>, "INT32")
+B1 == InputT(1, <<2>>, "INT32")
+ApplyInt(cls, op) == CASE cls = "selects_first" -> Tn(<<4>>, [ix \in IdxSet(<<4>>) |-> A1.f[<<(ix[1] + 1) % 3>>]], "INT32")
+                       [] cls = "joins" -> Tn(<<5>>, [ix \in IdxSet(<<5>>) |-> IF ix[1] < 3 THEN A1.f[<<ix[1]>>] ELSE B1.f[<<ix[1] - 3>>]], "INT32")
+                       [] cls = "pointwise_nary" -> BinT(op, A1, ConstT("s", <<>>, "INT32"))
+                       [] cls = "pointwise" -> UnT(op, A1)
+                       [] OTHER -> A1
+IntMemberSound(op) == IntClassOf[op] = "unknown" \/ Elems(ApplyInt(IntClassOf[op], op)) \subseteq Elems(A1)
+IntVocabSound == \A op \in IntPreserving : IntMemberSound(op)
 \* non-vacuity of the class semantics themselves
-ClassSemantics == /\ Commutes("pointwise", "f", <<1, 2, 0>>, 0)
+ClassSemantics == /\ Elems(ApplyInt("selects_first", "g")) \subseteq Elems(A1)
+                  /\ ~(Elems(ApplyInt("joins", "g")) \subseteq Elems(A1))
+                  /\ ~(Elems(ApplyInt("pointwise", "g")) \subseteq Elems(A1))
+                  /\ Commutes("pointwise", "f", <<1, 2, 0>>, 0)
                   /\ ~Commutes("axis", "g", <<1, 2, 0>>, 0)
                   /\ Commutes("axis", "g", <<0, 2, 1>>, 0)        \* the axis is a fixed point of this perm
 =============================================================================
